@@ -222,6 +222,12 @@ class ManifestContext:
         start: datetime.timedelta = duration * num_loops
         periods: list[models.Period] = list(multi_period.periods)
         index: int = 0
+        # every loop of the stream needs its own set of Period elements
+        max_loops: int = 50
+        if (timing.elapsedTime - start) > (duration * max_loops):
+            raise ValueError(
+                'timeShiftBufferDepth is too large for a multi-period stream ' +
+                f'(it would need more than {max_loops} loops of its Periods)')
         # todo: datetime.timedelta = self.now - oldest_frag
         while start <= timing.elapsedTime:
             prd = periods[index]
